@@ -1,5 +1,5 @@
 (* Extraction of the node cluster (C01, C12).  ExtrOcamlBasic only. *)
-Require Import IP.Base.Bytes IP.DM.Value IP.Node.Basic.
+Require Import IP.Base.Bytes IP.DM.Value IP.Node.Basic IP.Node.Typed.
 Require Extraction.
 Require Import ExtrOcamlBasic.
 Extraction Language OCaml.
@@ -7,4 +7,5 @@ Extraction "model.ml" abs kind_of length_of as_bool as_int as_uint as_float as_s
   as_bytes_again as_link map_entries list_entries iterate lookup_by_string lookup_by_index
   lookup_by_node lookup_by_segment seg_of_string seg_of_int format_int parse_int
   deep_equal dm_goeq init step steps run_tol build run copy copy_script plain_of
-  pinned repaired f64_is_nan dm_eqb.
+  pinned repaired f64_is_nan dm_eqb
+  tinit tstep trun_tol tbuild treset_ok tpinned trepaired.
